@@ -15,8 +15,10 @@ import (
 
 // fatal emits `fatal <node> <fork> <role> <file>`; mdFqname is the fqname of
 // the metadata object getFatalError returned (fork fqname, + ".split" /
-// ".join" / ".chnk<i>"), file its MetadataFileName.  Unknown objects are not
-// reported (the line is only a comparison, not an event).
+// ".join" / ".chnk<i>"), file its MetadataFileName.  The line is only a
+// comparison, not an event; an fqname that belongs to no fork's metadata gives
+// a line the model cannot parse (it is rejected: getFatalError must name a
+// metadata object of a fork).
 func (t *SchedTracer) fatal(mdFqname, file string) {
 	if mdFqname == "" || (file != "errors" && file != "assert") {
 		return
@@ -51,5 +53,11 @@ func (t *SchedTracer) fatal(mdFqname, file string) {
 			}
 			return
 		}
+		if hits > 1 {
+			// forks sharing a name (empty run-time forks): ambiguous, not compared
+			return
+		}
 	}
+	// what was reported is not the metadata of any fork of any node: the model rejects the line
+	t.emit("fatal-names-no-fork-metadata %s %s", strings.ReplaceAll(mdFqname, " ", "_"), file)
 }
